@@ -545,7 +545,7 @@ def output(out: OutputBuffer, aconf: AuditConf, banner: Optional[Banner], header
         if client_audit:
             out.good('(gen) client IP: {}'.format(client_host), always_print=True)
         if len(header) > 0:
-            out.info('(gen) header: ' + '\n'.join([Utils.to_print_ascii(h) for h in header]))  # Like the banner, the text a peer sends before it is shown in printable ASCII only (no terminal control sequences).
+            out.info('\n'.join(['(gen) header: ' + Utils.to_print_ascii(h) for h in header]))  # Like the banner, the text a peer sends before it is shown in printable ASCII only (no terminal control sequences); every line carries the prefix, so that no line of the peer's choosing stands alone in the report (i.e.: looks like the separator between two targets).
         if banner is not None:
             banner_line = '(gen) banner: {}'.format(banner)
             if sshv == 1 or banner.protocol[0] == 1:
